@@ -135,10 +135,20 @@ def run_callsite(mutate=None):
     return c12.run_callsite_pre(mutate)
 
 
+def _upd(screening, dynamic):
+    from checks import update_common as uc
+    return lambda m=None: uc.run_update(m, screening, dynamic, prefixes=("C02.",))
+
+
 def units():
+    U = "tdgl.solver.solver:TDGLSolver.update"
     return [
         Unit("solve_for_psi_squared", FUNC, run_main, props=["C02"], timeout=300),
         Unit("solvability_lemmas", "lemma (no code): quadratic eq. quad-1/quad-2", run_lemmas, props=["C02"], timeout=120),
+        # call-site precondition of the step function inside update(): abs_sq_psi == |psi|^2 and the base state is (psi^n, mu^n)
+        Unit("update[no screening, static A]", U, _upd(False, False), props=["C02"], timeout=900),
+        Unit("update[no screening, dynamic A]", U, _upd(False, True), props=["C02"], timeout=900),
+        Unit("update[screening, static A]", U, _upd(True, False), props=["C02"], timeout=900),
     ]
 
 
@@ -222,6 +232,53 @@ def bounded_native(seed, n=20000):
 
 
 def replay(unit, obl):
+    if unit.startswith("update["):
+        return replay_update(unit, obl)
+    return replay_kernel(unit, obl)
+
+
+def replay_update(unit, obl):
+    """native: count the Euler updates applied within one recorded time step and compare the abs_sq_psi argument with |psi|^2"""
+    import logging
+    import os
+    import tempfile
+    import numpy as np
+    os.environ.setdefault("TQDM_DISABLE", "1")
+    logging.disable(logging.CRITICAL)
+    import tdgl
+    from tdgl.geometry import box
+    from tdgl.solver.solver import TDGLSolver
+    layer = tdgl.Layer(coherence_length=0.5, london_lambda=0.5, thickness=0.1, gamma=1)
+    dev = tdgl.Device("d", layer=layer, film=tdgl.Polygon("film", points=box(4, 2)), length_units="um")
+    dev.make_mesh(max_edge_length=0.5, smooth=10)
+    screening = "no screening" not in unit
+    orig = TDGLSolver.adaptive_euler_step
+    calls = []
+
+    def wrap(self, step, psi, abs_sq_psi, mu, epsilon, dt):
+        calls.append((int(step), float(np.abs(np.abs(psi) ** 2 - abs_sq_psi).max())))
+        return orig(self, step, psi, abs_sq_psi, mu, epsilon, dt)
+    TDGLSolver.adaptive_euler_step = wrap
+    try:
+        with tempfile.TemporaryDirectory() as td:
+            opts = tdgl.SolverOptions(solve_time=1, output_file=os.path.join(td, "o.h5"), include_screening=screening, save_every=50)
+            tdgl.solve(dev, opts, applied_vector_potential=0.5)
+    finally:
+        TDGLSolver.adaptive_euler_step = orig
+        logging.disable(logging.NOTSET)
+    per = {}
+    for st, mism in calls:
+        per.setdefault(st, []).append(mism)
+    multi = {k: len(v) for k, v in per.items() if len(v) > 1}
+    worst = max(m for _, m in calls)
+    bad = bool(multi) or worst > 1e-12
+    return dict(confirmed=bad, steps=len(per), euler_updates=len(calls), steps_with_several_updates=len(multi),
+                max_updates_in_one_step=max(multi.values()) if multi else 1, max_mismatch_abs_sq_psi_vs_modulus=worst,
+                note="with screening every screening iteration applies another Euler update to the already updated psi (and mu) "
+                     "with the stale |psi^n|^2" if bad else "one update per step, abs_sq_psi = |psi|^2", tdgl_file=tdgl.__file__)
+
+
+def replay_kernel(unit, obl):
     """replay the solver's counter-model on the REAL static method (native, double precision).  If the model point
     itself does not show the failure (e.g. it sits on a fixed point), a small seeded neighbourhood of it is searched."""
     import math
